@@ -72,7 +72,7 @@ func flipBit(b []byte, r *core.RNG) {
 
 var perturbations = []perturbation{
 	{"mtype-confirmed", nil, func(r *core.RNG, d *dataCase, p *micParams) { d.Spec.MType ^= 6 }}, // 2<->4, 3<->5
-	{"major", nil, func(r *core.RNG, d *dataCase, p *micParams) { d.Spec.Major ^= byte(1 + r.Intn(3)) }},
+	{"major", func(d dataCase, p micParams) bool { return !majorR1Only }, func(r *core.RNG, d *dataCase, p *micParams) { d.Spec.Major ^= byte(1 + r.Intn(3)) }},
 	{"devaddr-bit", nil, func(r *core.RNG, d *dataCase, p *micParams) { flipBit(d.Spec.DevAddr[:], r) }},
 	{"adr", nil, func(r *core.RNG, d *dataCase, p *micParams) { d.Spec.ADR = !d.Spec.ADR }},
 	{"adrackreq", nil, func(r *core.RNG, d *dataCase, p *micParams) { d.Spec.ADRACKReq = !d.Spec.ADRACKReq }},
